@@ -59,6 +59,39 @@ class EqElementwise(list):
 _WEIRD = {}
 
 
+class SubInt(int):
+    pass
+
+
+class SubFloat(float):
+    pass
+
+
+class SubStr(str):
+    pass
+
+
+class SubList(list):
+    pass
+
+
+_SUBCLASSES = {'int': SubInt, 'float': SubFloat, 'str': SubStr, 'list': SubList}
+
+
+class SubDatetime(datetime.datetime):
+    """a host date-time whose class derives from datetime.datetime (pandas.Timestamp and freezegun's FakeDatetime are such classes)"""
+    @classmethod
+    def of(cls, d):
+        return cls(d.year, d.month, d.day, d.hour, d.minute, d.second, d.microsecond)
+
+
+class BadRepr(object):
+    def __repr__(self):
+        raise RuntimeError('repr() of this host object fails')
+
+    __str__ = __repr__
+
+
 class Opaque(object):
     def __init__(self, n):
         self.n = n
@@ -93,6 +126,14 @@ def dec(spec):
             return Opaque(v)
         if t == 'weird':
             return _WEIRD.setdefault(v, {'eqany': EqAny, 'eqraises': EqRaises, 'elementwise': lambda: EqElementwise([1, 2])}[v]())
+        if t == 'sub':
+            # a value whose class merely derives from int / float / str / list (an IntEnum member, a numpy-like scalar, a tagged string)
+            base, payload = v
+            return _SUBCLASSES[base](dec(payload))
+        if t == 'badrepr':
+            return _WEIRD.setdefault('badrepr', BadRepr())
+        if t == 'pow':
+            return v[0] ** v[1]          # an integer too long to write out (7**6000 has 5071 digits, beyond the interpreter's int/str limit)
         if t == 'dict':
             return dict((k, dec(x)) for k, x in v)
         if t == 'set':
@@ -103,6 +144,10 @@ def dec(spec):
 
 def enc(val):
     """Python value -> spec (best effort, used for reporting observed values)"""
+    if isinstance(val, BadRepr):
+        return {'$': 'badrepr', 'v': None}
+    if isinstance(val, int) and not isinstance(val, bool) and abs(val) >= 10 ** 4000:
+        return {'$': 'repr', 'v': 'an integer of %d bits' % val.bit_length()}
     if isinstance(val, bool) or val is None or isinstance(val, (int, str)):
         return val
     if isinstance(val, float):
